@@ -1,9 +1,16 @@
+"""C04 — The action mask is exactly the set of legal moves.  Driver over the per-environment sidecar contracts (contracts/<env>.py): keeps the clauses named C04.*"""
 from jxv import envdriver
+
+LEVEL = "proof"
+CONFIG_BOUND = "configurations listed in contracts/envs.py or in the contract module itself (small and adversarial: non-square, minimum sizes, >1 agents); values unbounded"
+NOT_VERIFIED = ["environments / clauses for which no C04 clause is present in the contract module (the evidence lists, per task, which clauses were discharged)",
+                "configurations outside the list"]
+ASSUMPTIONS = ["sampler contracts of jax.random (DESIGN.md section 5)", "induction over the episode from the per-step obligations (reset establishes Inv, step preserves it)"]
 
 
 def tasks(tier):
     return envdriver.tasks("C04", tier)
 
 
-LEVEL_TEXT = "wip"
-LEVEL_NOTE = "wip"
+LEVEL_TEXT = ('Proof: per environment a rule predicate legal(state, a) written from the documented rules; for every listed configuration and ALL states satisfying the environment invariant, the mask handed out by step and by reset (and cached in the state) equals legal(new state) for EVERY action of the action space (element-wise obligations), legal actions are never treated as invalid and illegal ones always are (own reaction).')
+LEVEL_NOTE = ('rule predicates transcribed from the docs (contracts/<env>.py); per-configuration; invariants inductive (re-proved for the successor state); floats as reals.')
